@@ -345,7 +345,11 @@ class BaseMDASolver(BaseMDA):
         scaling_data = self._scaling_data
         ResidualScaling = self.ResidualScaling  # noqa: N806
 
-        if scaling == ResidualScaling.NO_SCALING:
+        if not residual.size:
+            # There is no resolved variable, hence nothing to converge.
+            normed_residual = 0.0
+
+        elif scaling == ResidualScaling.NO_SCALING:
             normed_residual = float(norm(residual))
 
         elif scaling == ResidualScaling.INITIAL_RESIDUAL_NORM:
